@@ -84,6 +84,13 @@ claimed.update({
                 note="Outside (stated): listeners and filter-chain matches, clusters, gateways, EnvoyFilter patches, weights, protoc-gen-validate rules, EDS/RDS closure, objects that bypass validation. This is a partial check of C14.", ref="§4 C14"),
 })
 
+claimed.update({
+    "C15": dict(text="Thin: the two hand-written caches of the Kubernetes registry. PodCache (onEvent/addPod/deleteIP/getPodsByIP/needResync) as a bounded model check over pod lifecycle histories (create, IP assignment, readiness, phase, termination, eviction, delete, re-creation under the same name, "
+                     "informer coalescing) with symbolic status: after quiescence the IP index answers exactly with the live ready pods owning the IP, reverse index consistent, nothing remains of deleted pods, waiting endpoints are re-queued; "
+                     "endpointSliceCache (Update/Delete/Get/Has) over every order of slice operations and every map iteration order: every live address exactly once, nothing of deleted slices, duplicates resolved deterministically.",
+                note="Outside (stated): Controller.servicesMap, endpoint conversion, EDS shards, aggregate registry, informer/queue machinery, cold-start equivalence of the whole registry. This is a partial check of C15.", ref="§4 C15"),
+})
+
 na = {
     "C16": "krt (pkg/kube/krt) is built from generics instantiated over interface-typed collections, reflection-driven equality, unbounded goroutine/queue fan-out per handler and informer machinery; "
            "a symbolic run needs hundreds of thousands of interpreted instructions per event before the first branch on input and the per-handler queues multiply schedules beyond the pre-emption bound the engine can cover; "
